@@ -29,6 +29,7 @@ vars == <<c, s, out, calls>>
 HasDev(d) == d \in Dev
 EOFv == -2   \* ErrNoMorePackets
 ERRv == -3   \* any other error
+CTXv == -5   \* the context's error: the context given to NewDemuxer is done
 Total(cf) == cf.npk * cf.S + cf.extra
 
 \* how many bytes a request of n bytes at offset p can obtain in ONE Read call
@@ -63,26 +64,31 @@ Detect(cf, st) ==
 
 \* one NextPacket call
 Call(cf, st) ==
-  IF st.done THEN { [r |-> EOFv, s |-> st] }                               \* the end is absorbing
+  IF st.cancelled THEN { [r |-> CTXv, s |-> st] }                          \* checked first, nothing is read
+  ELSE IF st.done THEN { [r |-> EOFv, s |-> st] }                               \* the end is absorbing
   ELSE IF st.pb = "zero" THEN { [r |-> ERRv, s |-> st] }                   \* the size-0 packet buffer left behind: every call fails, none ends
   ELSE IF st.pb = "nil" THEN (IF cf.auto THEN Detect(cf, st) ELSE { ReadPacket(cf, [st EXCEPT !.pb = "ok"]) })
   ELSE { ReadPacket(cf, st) }
 
-S0 == [pos |-> 0, pb |-> "nil", done |-> FALSE]
+S0 == [pos |-> 0, pb |-> "nil", done |-> FALSE, cancelled |-> FALSE]
+Cancelled(st) == [st EXCEPT !.cancelled = TRUE]                            \* the caller cancels the context between two calls
 Init == /\ c \in [S : Sizes, kind : Kinds, npk : NPKS, extra : EXTRAS, auto : AUTOS]
         /\ s = S0 /\ out = <<>> /\ calls = 0
-Next == /\ calls < c.npk + 6
-        /\ \E x \in Call(c, s) : s' = x.s /\ out' = Append(out, x.r)
-        /\ calls' = calls + 1 /\ UNCHANGED c
+Next == \/ /\ calls < c.npk + 6
+           /\ \E x \in Call(c, s) : s' = x.s /\ out' = Append(out, x.r)
+           /\ calls' = calls + 1 /\ UNCHANGED c
+        \/ /\ ~s.cancelled /\ s' = Cancelled(s) /\ UNCHANGED <<c, out, calls>>
 Spec == Init /\ [][Next]_vars
 
-Packets == SelectSeq(out, LAMBDA x : x \notin {EOFv, ERRv})
+Packets == SelectSeq(out, LAMBDA x : x \notin {EOFv, ERRv, CTXv})
 \* C08: whatever the schedule, explicit size or auto-detection on a seekable / bufio reader returns every packet, in order;
 \* auto-detection on a plain reader returns the packets from the third on (documented loss), the same for every schedule
-SameAsFull == s.done => (IF c.auto /\ c.npk >= 2 /\ c.kind = "plain" THEN Packets = [i \in 1..(c.npk - 2) |-> i + 1]
+SameAsFull == (s.done /\ ~s.cancelled) => (IF c.auto /\ c.npk >= 2 /\ c.kind = "plain" THEN Packets = [i \in 1..(c.npk - 2) |-> i + 1]
                           ELSE IF c.auto /\ c.npk < 2 THEN TRUE
                           ELSE Packets = [i \in 1..c.npk |-> i - 1])
 \* C03: the end of the input is reached within npk + 2 calls and is absorbing
-EndsInBoundedCalls == calls > c.npk + 2 => s.done
-EOFAbsorbing == \A i \in DOMAIN out : out[i] = EOFv => \A j \in i..Len(out) : out[j] = EOFv
+EndsInBoundedCalls == (calls > c.npk + 2 /\ ~s.cancelled) => s.done
+\* once the context is done every call reports it and the reader is left alone
+CancelStops == [][s.cancelled => s'.pos = s.pos]_vars
+EOFAbsorbing == \A i \in DOMAIN out : out[i] = EOFv => \A j \in i..Len(out) : out[j] \in {EOFv, CTXv}
 =============================================================================
